@@ -246,6 +246,39 @@ fn detinv_f(t: &mut Toks, cx: &mut Ctx) -> String {
     out
 }
 
+/// Reference elimination with partial pivoting (independent of the code under test) in the arithmetic of `T`:
+/// does some step meet a pivot sub-column (on and below the diagonal) that is EXACTLY zero?  Then the matrix
+/// is singular to working precision: no elimination in this arithmetic can proceed.
+fn ref_zero_pivot_column<T: Sc>(a: &Matrix<T>) -> bool {
+    let n = a.rows();
+    let mut m: Vec<Vec<T>> = mat_rows(a);
+    for k in 0..n {
+        let mut p = k; let mut best = 0.0f64;
+        for i in k..n { let v = m[i][k].mag64(); if v > best { best = v; p = i; } }
+        if best == 0.0 { return true; }
+        m.swap(k, p);
+        for i in k + 1..n { let f = m[i][k] / m[k][k]; for j in k..n { let t = f * m[k][j]; m[i][j] = m[i][j] - t; } }
+    }
+    false
+}
+
+/// systems that are NONSINGULAR BY CONSTRUCTION (the generator guarantees it; exact arithmetic on 53-bit
+/// entries would overflow the harness rationals): whatever the solvers return must solve the system
+fn solve_ns<T: Sc>(t: &mut Toks, cx: &mut Ctx) -> String {
+    let mut t3 = t.clone_rest();
+    let out = solve::<T>(t, cx);
+    let a: Matrix<T> = rd_mat(&mut t3);
+    let numsing = guarded(|| ref_zero_pivot_column(&a)).unwrap_or(false);
+    cx.meta("numerically_singular", numsing as usize);
+    let tag = if numsing { " [numerically singular to working precision: a computed pivot sub-column is exactly zero, Gaussian elimination cannot proceed in this arithmetic]" } else { "" };
+    let p = out.find(" lu ").unwrap_or(out.len());
+    for (name, part) in [("solve_basic", &out[..p]), ("solve_lu", &out[p..])] {
+        if part.contains('!') { cx.fail(format!("{}: panicked on a nonsingular system{}", name, tag)); }
+        else if part.contains("nan") || part.contains("7ff0000000000000") || part.contains("fff0000000000000") { cx.fail(format!("{}: non-finite result on a nonsingular system{}", name, tag)); }
+    }
+    out
+}
+
 /// exact arithmetic in Q(i) for the complex oracle
 type Qi = (Q, Q);
 fn qi_mul(a: Qi, b: Qi) -> Qi { (a.0 * b.0 - a.1 * b.1, a.0 * b.1 + a.1 * b.0) }
@@ -295,6 +328,7 @@ fn detinv_c(t: &mut Toks, cx: &mut Ctx) -> String {
 
 pub fn exec(op: &str, t: &mut Toks, cx: &mut Ctx) -> Option<String> {
     match op {
+        "solve_ns" => { let tag = t.next(); Some(if tag == "f" { solve_ns::<f64>(t, cx) } else { solve_ns::<Cmplx>(t, cx) }) }
         "solve" => { let tag = t.next(); Some(match tag {
             "q" => solve_q(t, cx),
             "f" => solve_f::<f64>(t, cx, |x| to_q(*x).map(|q| (q, Q::int(0)))),
@@ -354,6 +388,21 @@ pub fn gen(rng: &mut Rng, tier: Tier, out: &mut Vec<String>) {
             out.push(format!("solve c {} {}", rows_str(&gc, n, n), gen_vec_str::<Cmplx>(rng, n, 0, 1)));
         }
     } } }
+    // nonsingular but singular to working precision: the first row is (p, 1, 0, ...) and every later row starts
+    // (1, fl(1/p), ...): the elimination of column 0 leaves fl(t - fl(fl(1/p) * 1)) = 0 in column 1 of EVERY later
+    // row, although t = fl(1/p) != 1/p, so that exactly det != 0 (the other columns are the identity pattern plus noise).
+    // No elimination can proceed in f64; a solver must not answer with a finite vector that does not solve the system.
+    for _ in 0..(if tier == Tier::Quick { 12 } else { 200 }) {
+        let n = 3 + rng.below(4);
+        let p = *rng.pick(&[49.0f64, 98.0, 103.0, 107.0, 161.0, 187.0, 3.0, 7.0, 10.0]) * if rng.chance(30) { -1.0 } else { 1.0 };
+        let t = 1.0 / p;
+        let mut a = vec![vec![0.0f64; n]; n];
+        a[0][0] = p; a[0][1] = 1.0;
+        for i in 1..n { a[i][0] = 1.0; a[i][1] = t; for j in 2..n { a[i][j] = if j == i + 1 || (i == n - 1 && j == 2) { 1.0 + rng.below(3) as f64 } else if rng.chance(30) { rng.range(-2, 2) as f64 } else { 0.0 }; } }
+        // make the trailing block (rows 1.., columns 2..) together with the rank-one coupling nonsingular: add i to a diagonal-like slot
+        for i in 1..n { let j = 2 + (i - 1) % (n - 2); a[i][j] += (i + 1) as f64; }
+        out.push(format!("solve_ns f {} {}", rows_str(&a, n, n), gen_vec_str::<f64>(rng, n, 0, 0)));
+    }
     // malformed: non-square / wrong rhs length, order 0
     for r in 0..4usize { for c in 0..4usize { for bl in 0..4usize { if r != c || bl != r || r == 0 {
         out.push(format!("solve q {} {}", gen_mat_str::<Q>(rng, r, c, 10, 0), gen_vec_str::<Q>(rng, bl, 10, 0)));
